@@ -287,25 +287,17 @@ def _array_decoder_semantics(F, b, size, arr, simd):
                 seen = []
                 calls = dict(_handlers(L))
 
-                def dec(args, seen=seen, outcome=outcome, L=L):
-                    srcs = [a for a in args if True]
-                    vals = []
-                    for a in args:
-                        try:
-                            vals.append(evalx.ev(S, F, a, asg))
-                        except evalx.Unknown:
-                            vals.append(None)
+                def dec(S_, bb_, vals, seen=seen, outcome=outcome):
                     views = [v for v in vals if isinstance(v, View)]
-                    muts = set()
-                    for a in args:
-                        for x in find_all(a, lambda y: y[0] == "ref" and len(y) == 3 and y[1] is True and isinstance(y[2], tuple) and y[2][0] == "lv"):
-                            muts.add(x[2][1])
-                    seen.append((tuple((v.lo, v.hi) for v in views), muts))
+                    raws = [v for v in vals if isinstance(v, tuple) and v[:1] == ("raw",)]
+                    seen.append((tuple((v.lo, v.hi) for v in views), len(raws)))
                     if simd:
                         return ("Ok", ("obj", "n")) if outcome else ("Err", ("obj", "hex error"))
                     return int(outcome)
+                calls["::from_slice"] = lambda v: v
+                calls["::as_mut_slice"] = lambda v: v
                 asg = {"symbolic": True, "params": {1: View("in", 0, L)}, "cparams": {size: N}, "calls": calls,
-                       "lazy_calls": {("hex_simd::decode" if simd else arr): dec}}
+                       "xcalls": {("hex_simd::decode" if simd else arr): dec}}
                 try:
                     p = evalx.select(S, F, paths, asg)
                 except evalx.Panics as ex:
@@ -334,8 +326,8 @@ def _array_decoder_semantics(F, b, size, arr, simd):
                     if not seen or any(s_[0] != ((0, L),) for s_ in seen):
                         return "the decoder is applied to %s of the input; reference the whole input" % ([s_[0] for s_ in seen][:1],)
                     if outcome:
-                        dsts = set().union(*[s_[1] for s_ in seen])
-                        if len(dsts) != 1 or not find_all(payload, lambda y: isinstance(y, tuple) and len(y) > 1 and y[0] in ("lv", "mutated", "local") and y[1] in dsts):
+                        # the decoder fills a local buffer (opaque to the evaluation) and the Ok value is built from such a buffer, not from a constant
+                        if any(s_[1] != 1 for s_ in seen) or not find_all(payload, lambda y: isinstance(y, tuple) and len(y) == 2 and y[0] == "raw"):
                             return "the Ok value is not built from the buffer the decoder filled"
     return None
 
